@@ -304,6 +304,17 @@ Norm(v) ==
     [] OTHER -> v
 NormMsg(m) == [n \in DOMAIN m |-> Norm(m[n])]
 
+\* does a normalised value contain a NaN (whose payload bits no text form can carry)
+RECURSIVE HasNaN(_)
+HasNaN(v) ==
+  CASE v.k = "f32" -> v.b = <<0, 0, 192, 127>>
+    [] v.k = "f64" -> v.b = <<0, 0, 0, 0, 0, 0, 248, 127>>
+    [] v.k = "list" -> \E j \in 1..Len(v.xs) : HasNaN(v.xs[j])
+    [] v.k = "map" -> \E x \in DOMAIN v.f : HasNaN(v.f[x])
+    [] v.k = "msg" -> \E n \in DOMAIN v.m : HasNaN(v.m[n])
+    [] v.k = "wrapv" -> HasNaN(v.v)
+    [] OTHER -> FALSE
+MsgHasNaN(m) == \E n \in DOMAIN m : HasNaN(m[n])
 \* the names of the fields on which two normalised messages differ (diagnostics)
 DiffFields(a, b) == { n \in DOMAIN a : n \notin DOMAIN b \/ a[n] # b[n] }
 =============================================================================
